@@ -60,4 +60,38 @@ Lan(m) == SqName(m.from) \o SqName(m.to) \o (IF m.promo = "." THEN "" ELSE Lower
 Negatives(p, ms) ==
   {(IF m.piece = "P" THEN "" ELSE m.piece) \o SqName(m.from) \o (IF m.capture # "." THEN "x" ELSE "") \o SqName(m.to)
      \o (IF m.promo # "." THEN "=" \o m.promo ELSE "") : m \in PseudoLegal(p) \ ms}
+
+\* ---- reading SAN (over one-character sequences): the set of legal moves a token denotes --------
+IsFileCh(c) == \E i \in 1..8 : FileCh[i] = c
+IsRankCh(c) == \E i \in 1..8 : RankCh[i] = c
+FileIdx(c) == (CHOOSE i \in 1..8 : FileCh[i] = c) - 1
+RankIdx(c) == (CHOOSE i \in 1..8 : RankCh[i] = c) - 1
+RECURSIVE StripSuffix(_)
+StripSuffix(t) == IF t # <<>> /\ Last(t) \in {"+", "#", "!", "?"} THEN StripSuffix(Front(t)) ELSE t
+SanSuffix(t) == IF \E i \in 1..Len(t) : t[i] = "#" THEN "#" ELSE IF \E i \in 1..Len(t) : t[i] = "+" THEN "+" ELSE ""
+SanResolve(p, tok) ==
+  LET t == StripSuffix(tok) ms == Legal(p) IN
+  IF t = <<"O","-","O","-","O">> THEN { m \in ms : m.castle = "Q" }
+  ELSE IF t = <<"O","-","O">> THEN { m \in ms : m.castle = "K" }
+  ELSE IF Len(t) < 2 THEN {}
+  ELSE
+  LET hasPromo == Last(t) \in {"Q","R","B","N"}
+      promo == IF hasPromo THEN Last(t) ELSE "."
+      t1 == IF hasPromo THEN (IF Len(t) >= 2 /\ t[Len(t) - 1] = "=" THEN SubSeq(t, 1, Len(t) - 2) ELSE Front(t)) ELSE t
+  IN IF Len(t1) < 2 \/ ~IsRankCh(Last(t1)) \/ ~IsFileCh(t1[Len(t1) - 1]) THEN {}
+  ELSE
+  LET to == Sq(FileIdx(t1[Len(t1) - 1]), RankIdx(Last(t1)))
+      r0 == SubSeq(t1, 1, Len(t1) - 2)
+      piece == IF r0 # <<>> /\ r0[1] \in {"K","Q","R","B","N"} THEN r0[1] ELSE "P"
+      r1 == IF piece # "P" THEN Tail(r0) ELSE r0
+      isCap == r1 # <<>> /\ Last(r1) = "x"
+      r2 == IF isCap THEN Front(r1) ELSE r1
+      dfile == IF r2 # <<>> /\ IsFileCh(r2[1]) THEN FileIdx(r2[1]) ELSE 0 - 1
+      r3 == IF dfile >= 0 THEN Tail(r2) ELSE r2
+      drank == IF r3 # <<>> /\ IsRankCh(r3[1]) THEN RankIdx(r3[1]) ELSE 0 - 1
+      r4 == IF drank >= 0 THEN Tail(r3) ELSE r3
+  IN IF r4 # <<>> THEN {}
+     ELSE { m \in ms : /\ m.castle = "." /\ m.piece = piece /\ m.to = to /\ m.promo = promo
+                       /\ (dfile < 0 \/ FileOf(m.from) = dfile) /\ (drank < 0 \/ RankOf(m.from) = drank)
+                       /\ (isCap <=> m.capture # ".") }
 =============================================================================
